@@ -184,7 +184,6 @@ package snowflake_client
 // all of them written or an error; Read takes from the pipe the data channel callback fills.
 //@ func (c *WebRTCPeer) Write(b []byte) (n int, err error)
 //@   props C09
-//@   flag nosafety
 //@   requires c != nil
 //@   assumes c.transport != nil && c.bytesLogger != nil
 //@   at call Send assert {sends-exactly-the-callers-bytes} base(arg1) == base(b) && len(arg1) == len(b)
@@ -192,7 +191,6 @@ package snowflake_client
 //
 //@ func (c *WebRTCPeer) Read(b []byte) (n int, err error)
 //@   props C09
-//@   flag nosafety
 //@   requires c != nil
 //@   assumes c.recvPipe != nil
 //@   at call Read assert {reads-the-receive-pipe-into-the-callers-buffer} arg0 == c.recvPipe && base(arg1) == base(b) && len(arg1) == len(b)
@@ -201,7 +199,6 @@ package snowflake_client
 // closed and releases everything the peer holds - its side of the pipe, the data channel and the peer connection.
 //@ func (c *WebRTCPeer) Close() (err error)
 //@   props C15
-//@   flag nosafety safety-close
 //@   requires c != nil
 //@   assumes c.closed != nil && (oncedone(&c.once) <==> closed(c.closed))
 //@   ensures {closed-afterwards} closed(c.closed) && oncedone(&c.once)
@@ -210,7 +207,6 @@ package snowflake_client
 // (the body of the Once: runs at most once, with the peer still open)
 //@ func (c *WebRTCPeer) Close$1()
 //@   props C15
-//@   flag nosafety safety-close
 //@   assumes c != nil && c.closed != nil && !closed(c.closed)
 //   Pop skips peers by asking Closed(): the peer is marked closed BEFORE its pipe and channel are torn down, so that a
 //   peer in the middle of its teardown is never handed to the data path.
@@ -219,7 +215,6 @@ package snowflake_client
 //
 //@ func (c *WebRTCPeer) cleanup()
 //@   props C15
-//@   flag nosafety
 //@   requires c != nil
 //@   ensures {releases-pipe-data-channel-and-peer-connection} calls(Close) == ite(old(c.writePipe) != nil, 1, 0) + ite(old(c.transport) != nil, 1, 0) + ite(old(c.pc) != nil, 1, 0)
 //
